@@ -137,7 +137,7 @@ def rand_c01(seed, tier, cases=None):
         out.append(dict(fam="C01", p=p, tags=_ptags(p), dsts=[], sites=[], **{"class": "giant_legacy"}))
     for _ in range(2500 if tier == "quick" else 40000):
         p = _rand_packet(rng)
-        out.append(dict(fam="C01", p=p, tags=_ptags(p), dsts=[], sites=[], **{"class": "rand_" + _ptags(p)["layout"]}))
+        out.append(dict(fam="C01", p=p, p2=_rand_packet(rng), tags=_ptags(p), dsts=[], sites=[], **{"class": "rand_" + _ptags(p)["layout"]}))
     return out
 
 
